@@ -25,7 +25,8 @@ ASSUMPTIONS = ["float64 CPU", "expected exception family: any Exception raised b
                "counted as an observation only",
                "electron counts outside [2, 2*n_orbitals - 2] are not generated"]
 REQUIRED_MONITORS = ["negative_raised", "negative_fresh_checked", "negative_precomputed_checked", "positive_rows_finite",
-                     "guard_sites_seen"]
+                     "guard_sites_seen", "negative_raised_dict_reused", "negative_raised_dict_user_elements",
+                     "positive_dispersion_cases"]
 # thorough tier: cases not started after this many seconds are skipped and reported (env override for smoke tests)
 BUDGET_S = {"thorough": float(__import__("os").environ.get("VERIF_C18_BUDGET", "1500"))}
 CASE_TIMEOUT = 600.0
@@ -69,7 +70,7 @@ LISTED = [k for k in OPERATORS if k not in ("excited-states-not-a-dict", "excite
 def gen_cases(tier, seed):
     g = gen.rng("C18", tier)
     cases = []
-    nrep = 5 if tier == "quick" else 60
+    nrep = 6 if tier == "quick" else 60
     methods = ["AM1", "PM3", "MNDO", "PM6_SP"]
     hetero = ["H2O", "NH3", "CH4", "HCN", "CH2O", "CO", "HF", "CH3OH", "C2H4", "N2", "CH3F", "HOOH"]
     for r in range(nrep):                 # round-robin over the operators, so that a truncated run still sees all of them
@@ -79,7 +80,10 @@ def gen_cases(tier, seed):
             multi = [n for n in names if len(set(gen.molecule(n)[0])) > 1]
             c = {"kind": "neg", "op": op, "method": method, "seed": int(g.integers(0, 2**31)),
                  "mol": multi[int(g.integers(0, len(multi)))], "mol2": names[int(g.integers(0, len(names)))],
-                 "precomputed": bool(r % 2)}
+                 "precomputed": bool(r % 2),
+                 # how the settings dictionary reaches the call: a fresh one, one that already served a valid Molecule, or
+                 # one carrying a user-supplied 'elements' list (every guard must fire in all three situations)
+                 "dict_mode": "fresh" if op == "driver-before-molecule" else ["fresh", "reused", "user-elements"][r % 3]}
             if op == "unsupported-principal-quantum-number":
                 c["heavy"] = HEAVY_QN4[method][r % 2]
             if op in ("uhf-impossible-multiplicity",):
@@ -122,6 +126,24 @@ def gen_cases(tier, seed):
             k = int(g.integers(2, 5))
             c.update({"mols": [names[int(j)] for j in g.integers(0, len(names), k)],
                       "scales": [float(g.choice([0.55, 0.7, 1.0, 1.0, 2.0, 4.0, 12.0])) for _ in range(k)], "uhf": False})
+        pos.append(c)
+    # AM1 + dispersion correction ("dispersion": True), back-propagated forces: compressed / stretched pairs and molecules
+    ndisp = 30 if tier == "quick" else 400
+    dpairs = [(1, 1), (8, 1), (6, 1), (6, 6), (7, 1), (8, 6), (9, 1), (7, 7), (8, 8), (17, 1), (16, 1), (6, 7)]
+    ddists = [0.5, 0.55, 0.6, 0.65, 0.7, 0.75, 0.8, 0.9, 1.0, 1.3, 2.0, 4.0, 10.0, 25.0]
+    dmols = [n for n in ("H2", "H2O", "CH4", "NH3", "C2H4", "C2H2", "CH3OH", "HCN", "CH2O", "C2H6") if gen.available(n, "AM1")]
+    for i in range(ndisp):
+        c = {"kind": "pos", "family": "dispersion", "method": "AM1", "conv": [[1], [2], [0, 0.3]][i % 3], "uhf": False,
+             "seed": int(g.integers(0, 2**31)), "eps": 1e-7, "dispersion": True}
+        if i % 3 == 0:
+            a, b = dpairs[int(g.integers(0, len(dpairs)))]
+            c.update({"sub": "diatomic", "Z1": a, "Z2": b, "d": float(ddists[int(g.integers(0, len(ddists)))]), "charge_shift": 0})
+        elif i % 3 == 1:
+            c.update({"sub": "compress", "mol": dmols[int(g.integers(0, len(dmols)))], "target": float(g.choice([0.5, 0.55, 0.6, 0.7, 0.8]))})
+        else:
+            k = int(g.integers(2, 4))
+            c.update({"sub": "batch", "mols": [dmols[int(j)] for j in g.integers(0, len(dmols), k)],
+                      "scales": [float(g.choice([0.5, 0.6, 0.7, 1.0, 3.0])) for _ in range(k)]})
         pos.append(c)
     # interleave the two spaces so that a truncated (budgeted) run still exercises both
     out = []
@@ -307,7 +329,8 @@ def _run_neg(case):
     stage_doc, expected = OPERATORS[op]
     req = _neg_request(case)
     mon = {}
-    cells = ["neg/%s/%s" % (op, "precomputed" if case["precomputed"] else "fresh")]
+    cells = ["neg/%s/%s" % (op, "precomputed" if case["precomputed"] else "fresh"),
+             "neg-dict/%s/%s" % (op, case.get("dict_mode", "fresh"))]
     viol = []
     sp = torch.as_tensor(np.asarray(req["species"]), dtype=torch.int64)
     xyz = run.tens(req["coords"]).clone()
@@ -323,6 +346,18 @@ def _run_neg(case):
     with run.quiet(), env.Scratch("c18") as d:
         const = Constants()
         sett = copy.deepcopy(req["sett"])
+        dict_mode = case.get("dict_mode", "fresh")
+        will_precompute = case["precomputed"] and req.get("valid_sett") is not None and stage_doc in ("forward", "md") \
+            and op not in ("hetero-batch-rpa", "hetero-batch-excited-gradient", "uhf-sp2", "uhf-pulay", "uhf-ksa", "uhf-pm6")
+        if dict_mode == "reused" and not will_precompute:
+            # the very dictionary of the invalid request first serves a valid molecule (outside the judged call)
+            pm = sett["method"]
+            primers = [n for n in ("H2O", "CH4", "NH3", "HF") if gen.available(n, pm)]
+            Zp, Xp, _, _ = gen.molecule(primers[case["seed"] % len(primers)])
+            try:
+                Molecule(const, sett, run.tens([Xp.tolist()]), torch.as_tensor([Zp], dtype=torch.int64))
+            except Exception as exc:  # noqa: BLE001
+                return {"ineligible": "priming the dictionary with a valid molecule raised %s" % type(exc).__name__}
         try:
             # optional valid pre-computation: the invalid request then hits a molecule that already carries results
             if case["precomputed"] and req.get("valid_sett") is not None and stage_doc in ("forward", "md") \
@@ -339,6 +374,9 @@ def _run_neg(case):
                     sett = vs
                 else:
                     sett["elements"] = list(vs["elements"])      # same element list as the dictionary the molecule was built with
+            if mol is None and dict_mode == "user-elements":
+                present = set(int(z) for z in np.asarray(req["species"]).reshape(-1))
+                sett["elements"] = sorted(present | {0, 1, 6, 7, 8})
             foreign = None
             if req.get("foreign_driver"):
                 rf = req["foreign_driver"]
@@ -384,6 +422,7 @@ def _run_neg(case):
         tname = type(raised).__name__
         obs.update({"exception": tname, "message": str(raised)[:160], "site": site, "deliberate_guard": deliberate})
         mon["negative_raised"] = 1
+        mon["negative_raised_dict_" + case.get("dict_mode", "fresh").replace("-", "_")] = 1
         if deliberate:
             mon["guard_sites_seen"] = 1
             cells.append("guard@%s" % site)
@@ -424,6 +463,8 @@ def _norb_ne(Z, method):
 def _pos_request(case):
     g = np.random.default_rng(case["seed"])
     fam, method = case["family"], case["method"]
+    if fam == "dispersion":
+        fam = case["sub"]
     rows = []        # (Z, X, charge, mult)
     if fam == "diatomic":
         Z, X = gen.diatomic(case["Z1"], case["Z2"], case["d"])
@@ -477,10 +518,14 @@ def _run_pos(case):
     if rows is None:
         return {"ineligible": "electron count outside the generated domain for this solver"}
     method = case["method"]
-    sett = run.settings(method, eps=case["eps"], converger=tuple(case["conv"]), uhf=case["uhf"])
+    sett = run.settings(method, eps=case["eps"], converger=tuple(case["conv"]), uhf=case["uhf"],
+                        extra={"dispersion": True} if case.get("dispersion") else None)
     S, C = gen.pad_batch([(Z, X) for Z, X, _, _ in rows])
     cells = ["pos/%s/%s/conv%s/%s" % (case["family"], method, case["conv"][0], "UHF" if case["uhf"] else "RHF")]
     mon = {}
+    if case.get("dispersion"):
+        mon["positive_dispersion_cases"] = 1
+        cells.append("pos/dispersion/%s" % case["sub"])
     try:
         if len(rows) == 1:
             out = run.single_point(S, C, sett, charges=float(rows[0][2]), mult=float(rows[0][3]))
@@ -524,7 +569,7 @@ def _run_pos(case):
             cells.append("element/%s/%d" % (method, z))
         if q:
             cells.append("charge/%+d" % q)
-    if case["family"] == "diatomic":
+    if case["family"] == "diatomic" or case.get("sub") == "diatomic":
         cells.append("distance/%g" % case["d"])
     return {"nontrivial": True, "violations": viol, "monitors": mon, "cells": cells,
             "margins": {"finite_or_flagged": worst},
